@@ -1,9 +1,12 @@
 (* C07 — Lost, duplicated or delayed sync messages never lose or double-apply operations.
-   Full statement: C05's conclusion for histories of Net.v WITH duplicated requests and dropped
-   responses (C07_statement_list, a definition).  Machine-checked so far: the two mechanisms that
-   make retries harmless — the server stores a re-pushed operation at most once (C06's invariant
-   holds for arbitrary request sequences, duplicates included), and a client never re-executes its
-   own operations when a retry pulls them back. *)
+   Full statement over Model/Net.v: C07_statement_list (a definition).  Machine-checked: the mechanisms that make
+   retries harmless — the server stores a re-pushed operation at most once (C06's invariant holds for arbitrary
+   request sequences, duplicates included), a client never re-executes its own operations when a retry pulls them
+   back, a stale response cannot move the checkpoint back — and, for the steady state of one datatype
+   (Proofs/Protocol.v), the system-level theorem: with answers lost and requests repeated in any pattern every client
+   executes every foreign operation of the log prefix it has seen exactly once, in log order, and every operation a
+   client issued is stored exactly once (C07_retries_deliver_exactly_once, the same theorem as C05's (8)).
+   Delayed (out-of-order) answers are exercised by the harness, not part of that theorem. *)
 From Coq Require Import List NArith.
 From Orda.Model Require Import Base Time Ops List Datatype CheckCrdt Server Wire Net.
 From Orda.Proofs Require Import ServerFacts WireFacts.
@@ -38,3 +41,54 @@ Theorem C07_stale_response_keeps_checkpoint :
     (dstate_eqb (w_state w) DueToSubscribeCreate = false -> d_buf (w_d w') = d_buf (w_d w)).
 Proof. exact apply_pack_cp_monotone. Qed.
 Print Assumptions C07_stale_response_keeps_checkpoint.
+
+(* the system-level statement for the steady state of one datatype: answers may be lost (PSync _ true) and the repeated
+   requests carry operations the server already has; see Properties/C05.v (8) for the definitions *)
+From Orda.Proofs Require Import ClientOrder Protocol.
+Theorem C07_retries_deliver_exactly_once : forall colname col D key ty st0 evs,
+  PInv col D st0 ->
+  let st := prun colname col D key ty st0 evs in
+  LogInv (ps_db st) /\
+  (forall c, In c (ps_cl st) ->
+     pc_exec c = filter (fun o => negb (own_of (pc_cuid c) o)) (firstn (N.to_nat (pc_s c)) (logops D (ps_db st)))) /\
+  (forall d u, In d (s_dts (ps_db st)) -> seqs_of (s_ops (ps_db st)) (dd_duid d) u = nseq 1 (N.to_nat (ack d u))).
+Proof. exact protocol_exactly_once. Qed.
+Print Assumptions C07_retries_deliver_exactly_once.
+
+(* ... and with the network (Proofs/ProtocolLate.v): every answer the server has ever given stays deliverable — late, out
+   of order, any number of times ([LLate i j] delivers the j-th answer ever given to client i again) — in any
+   interleaving with local operations and further exchanges.  [LInv]: the invariant of Protocol.v plus, for every answer
+   in the network, that it describes the log from a position its client had reached up to a later position, with the
+   acknowledged number that belongs to that position. *)
+From Orda.Proofs Require Import ProtocolLate.
+Theorem C07_late_and_repeated_answers : forall colname col D key ty st0 evs,
+  LInv col D st0 ->
+  let st := l_base (lrun colname col D key ty st0 evs) in
+  LogInv (ps_db st) /\
+  (forall c, In c (ps_cl st) ->
+     pc_exec c = foreign (pc_cuid c) (firstn (N.to_nat (pc_s c)) (logops D (ps_db st)))) /\
+  (forall d u, In d (s_dts (ps_db st)) -> seqs_of (s_ops (ps_db st)) (dd_duid d) u = nseq 1 (N.to_nat (ack d u))).
+Proof. exact late_answers_exactly_once. Qed.
+Print Assumptions C07_late_and_repeated_answers.
+
+(* non-vacuity: the state of C05's example with an empty network; u's first answer is lost and arrives after two more
+   exchanges, v's answer is delivered twice: nothing is executed twice, nothing is lost, no checkpoint moves back *)
+Example C07_late_example :
+  let c := [99]%N in let u := [117]%N in let v := [118]%N in let k := [107]%N in let col := [65]%N in
+  let o1 := OSnap (mkOpid 0 1 u 1) in let o2 := OInc (mkOpid 0 2 u 2) 5 in let p1 := OInc (mkOpid 0 2 v 1) 1 in
+  let rs := [RCollection col; RClient col u; RClient col v;
+             RPushPull col u [mkPpp k c bit_create (mkCp 0 1) 0 [o1] None];
+             RPushPull col v [mkPpp k c bit_subscribe (mkCp 0 0) 0 [] None]] in
+  let st0 := mkLs (mkPs (fold_left serve rs sdb_init) [mkPc u 1 1 [] []; mkPc v 1 0 [] [o1]]) [] in
+  let evs := [LBase (PLocal 0 o2); LBase (PSync 0 true); LBase (PLocal 1 p1); LBase (PSync 1 false); LBase (PSync 0 false);
+              LLate 0 1; LLate 1 0; LLate 1 0; LBase (PSync 1 false); LLate 0 0; LLate 0 1] in
+  LInv 1 c st0 /\
+  map (fun x => (pc_s x, pc_cc x, pc_buf x, pc_exec x)) (ps_cl (l_base (lrun col 1 c k 0 st0 evs))) = [(3, 2, [], [p1]); (3, 1, [], [o1; o2])]%N.
+Proof.
+  cbv zeta. split; [|vm_compute; reflexivity].
+  apply LInv_of_PInv; [|intros d0 Hin Hd; vm_compute in Hin; destruct Hin as [<-|[]]; vm_compute; reflexivity].
+  split; [apply log_invariant|]. split; [apply client_order; repeat constructor|]. split; [repeat constructor; cbn; intuition discriminate|].
+  eexists. split; [vm_compute; left; reflexivity|]. split; [reflexivity|]. split; [reflexivity|].
+  repeat constructor; vm_compute; try reflexivity; try discriminate.
+Qed.
+Print Assumptions C07_late_example.
